@@ -10,12 +10,15 @@ package pagedrv
 import (
 	"bytes"
 	"encoding/binary"
+	"errors"
 	"fmt"
 	"sort"
+	"strings"
 
 	txfile "github.com/elastic/go-txfile"
 	"github.com/elastic/go-txfile/txerr"
 
+	"verif/engine/diskfmt"
 	"verif/engine/sched"
 	"verif/engine/simdisk"
 )
@@ -118,10 +121,17 @@ type Op struct {
 	K OpKind `json:"k"`
 	A int    `json:"a,omitempty"`
 	B int    `json:"b,omitempty"`
+	// M selects the order in which the library's map iterations run during
+	// this operation (Go leaves it unspecified): 0 ascending keys, 1
+	// descending, 2 rotated by half.
+	M int `json:"m,omitempty"`
 }
 
 func (o Op) String() string {
 	n := opNames[o.K]
+	if o.M != 0 {
+		n = []string{"", "desc:", "rot:"}[o.M%3] + n
+	}
 	switch o.K {
 	case OCommit, ORollback, OCloseTx, OFlushTx, OCheckpoint, OReopen, OFreeAll:
 		return n
@@ -232,6 +242,7 @@ type Env struct {
 	OverflowUsed bool  // an overflow-enabled transaction ran since
 	LastOpLog    int   // disk log length before the most recent operation (set by the replayer)
 	Eager        bool  // let the background writer drain its queue after every operation (writer timing "eager")
+	DiskCheck    bool  // after every successful commit decode the on-disk state independently (engine/diskfmt)
 }
 
 // StatsObserver records what the library reports to an Observer.
@@ -422,6 +433,36 @@ func (e *Env) cur(id uint64) Val {
 		}
 	}
 	return e.M.Pages[id]
+}
+
+// CheckDisk decodes the current disk image without the library and checks the
+// partition of page ids against the live pages of model state m.
+func (e *Env) CheckDisk(m State, when string) {
+	st, err := diskfmt.Decode(e.Disk.Bytes(), e.Cfg.PageSize)
+	if err != nil {
+		e.violate("diskfmt/undecodable", "%s: the on-disk metadata cannot be decoded: %v", when, err)
+		return
+	}
+	if st.Header.Root != m.Root {
+		e.violate("diskfmt/root", "%s: the newest valid header has root %d, the model %d", when, st.Header.Root, m.Root)
+	}
+	for _, p := range st.Check(m.IDs()) {
+		e.violate("diskfmt/partition", "%s: %s", when, p)
+	}
+}
+
+// ErrChain renders an error with all its causes.
+func ErrChain(err error) string {
+	var parts []string
+	for err != nil && len(parts) < 8 {
+		parts = append(parts, err.Error())
+		if c, ok := err.(interface{ Cause() error }); ok {
+			err = c.Cause()
+		} else {
+			err = errors.Unwrap(err)
+		}
+	}
+	return strings.Join(parts, " <- ")
 }
 
 // ErrKind classifies an error for observations.
